@@ -108,6 +108,11 @@ def stimuli_of(labels) -> tuple:
             else:
                 k, _ = out[stop_at[1]][-1]
                 out[stop_at[1]][-1] = (k, ('stop', 'slow'))
+            # the environment also tries the other thing time can bring inside a slow stop(): a connect
+            # that was in flight completes while the connections are being closed
+            for kind, i in spawn_idx.items():
+                if out[i][2] == 'any':
+                    out[i][2] = 'gate'
         elif name == 'WatchdogWake':
             wake = True
         elif name == 'ReconnectOk':
@@ -124,9 +129,11 @@ def stimuli_of(labels) -> tuple:
             spawn_idx[a[0]] = len(out) - 1
         elif name == 'Finish':
             out.append(['scanfin'] if a and a[0] == 'scan' else ['wait', LONG])
+            if a:
+                spawn_idx.pop(a[0], None)
         elif name == 'PeerOpens':
             if a[0] in spawn_idx:
-                out[spawn_idx[a[0]]][2] = 'delay'
+                out[spawn_idx.pop(a[0])][2] = 'delay'
             out.append(['wait', 8.0])
         elif name == 'PeerIn':
             out.append(['peerin'])
@@ -181,24 +188,36 @@ def _task_kind(task) -> str | None:
 
 
 class Names:
-    """abstract <-> concrete names of one concretisation"""
+    """abstract <-> concrete names of one concretisation.  Users (me, f1, f2), rooms (r1, r2) and
+    interests (l1, h1) are separate name spaces: the settings lists are independent, so the same
+    string may be a friend, a favourite room and an interest at once (`shared`)."""
+
+    SPACES = {'user': ('me', 'f1', 'f2'), 'room': ('r1', 'r2'), 'interest': ('l1', 'h1')}
 
     def __init__(self, rng):
         pool = ['alice', 'Bob Smith', 'ça_va', 'user-03', 'x', 'Zoë', 'very long name ' * 3, '日本', 'a.b', 'me2']
         rng.shuffle(pool)
         self.c = {'me': 'me' if rng.random() < 0.5 else pool[0] + '!'}
+        shared = rng.random() < 0.4
         for i, k in enumerate(['f1', 'f2', 'l1', 'h1', 'r1', 'r2']):
-            self.c[k] = pool[i + 1] + ('' if k[0] == 'f' else f' {k[0]}')
-        self.a = {v: k for k, v in self.c.items()}
+            if shared:
+                # the same two strings in every list
+                self.c[k] = pool[1 + (0 if k in ('f1', 'l1', 'r1') else 1)]
+            else:
+                self.c[k] = pool[i + 1] + ('' if k[0] == 'f' else f' {k[0]}')
+        self._index()
 
-    def abstract(self, concrete: str) -> str:
-        return self.a.get(concrete, '?' + str(concrete)[:20])
+    def _index(self):
+        self.a = {ns: {self.c[k]: k for k in keys if k in self.c} for ns, keys in self.SPACES.items()}
+
+    def abstract(self, concrete: str, ns: str) -> str:
+        return self.a[ns].get(concrete, '?' + str(concrete)[:20])
 
     @classmethod
     def from_map(cls, c: dict) -> 'Names':
         self = cls.__new__(cls)
         self.c = dict(c)
-        self.a = {v: k for k, v in self.c.items()}
+        self._index()
         return self
 
 
@@ -223,19 +242,19 @@ def frame_of(msg, M, nm: Names, ports) -> list:
             return ['other', 'AddUser:self']          # kept "for convenience" (user/manager.py:477)
         if msg.username in ('ghost', 'seeder'):
             return ['other', 'AddUser:' + msg.username]  # caused by the harness (spawned activity)
-        return ['adduser', nm.abstract(msg.username)]
+        return ['adduser', nm.abstract(msg.username, 'user')]
     if isinstance(msg, M.AddInterest.Request):
-        return ['like', nm.abstract(msg.interest)]
+        return ['like', nm.abstract(msg.interest, 'interest')]
     if isinstance(msg, M.AddHatedInterest.Request):
-        return ['hate', nm.abstract(msg.hated_interest)]
+        return ['hate', nm.abstract(msg.hated_interest, 'interest')]
     if isinstance(msg, M.TogglePrivateRoomInvites.Request):
         return ['invites', b(msg.enable)]
     if isinstance(msg, M.JoinRoom.Request):
-        return ['join', nm.abstract(msg.room)]
+        return ['join', nm.abstract(msg.room, 'room')]
     if isinstance(msg, M.BranchLevel.Request):
         return ['level', str(msg.level)]
     if isinstance(msg, M.BranchRoot.Request):
-        return ['root', 'me' if msg.username == me else nm.abstract(msg.username)]
+        return ['root', 'me' if msg.username == me else nm.abstract(msg.username, 'user')]
     if isinstance(msg, M.ToggleParentSearch.Request):
         return ['psearch', b(msg.enable)]
     return ['other', type(msg).__qualname__.split('.')[0]]
@@ -552,6 +571,7 @@ class Runner:
                     return
                 st['stall'] = None
                 rec('stall', on=kind, st=plan['state'], d=int(plan['d'] * 1000))
+                loop.call_later(1.0, open_conn_gates)
                 sess = srv.sessions[-1] if srv.sessions else None
                 if plan['poke'] and sess is not None and not sess.closed:
                     # a server stimulus that lands inside stop()
@@ -563,6 +583,10 @@ class Runner:
                                                        obfuscated_port=0))
                 await asyncio.sleep(plan['d'])
                 rec('note', what='stall_end')
+            def open_conn_gates():
+                for g in st.get('conn_gates', []):
+                    if not g.done():
+                        g.set_result('ok')
             keep.append(slow_listener)
             client.events.register(ConnectionStateChangedEvent, slow_listener)
 
@@ -634,7 +658,14 @@ class Runner:
                 slow = variant == 'delay'
 
                 def policy_for(port):
-                    pol[port] = ('delay', 5.0) if slow else 'hang'
+                    if variant == 'gate':
+                        # completes when the harness says so: one second into a slow close of stop(),
+                        # else five seconds after stop() returned
+                        g = loop.create_future()
+                        st.setdefault('conn_gates', []).append(g)
+                        pol[port] = ('gate', g)
+                    else:
+                        pol[port] = ('delay', 5.0) if slow else 'hang'
 
                 if sess is None:
                     return
@@ -803,6 +834,9 @@ class Runner:
                         pass
             if st.get('gate') is not None and not st['gate'].done():
                 st['gate'].set_result('ok')
+            if any(not g.done() for g in st.get('conn_gates', [])):
+                await asyncio.sleep(5.0)
+                open_conn_gates()
             release_scan()
             if started:
                 await quiesce(conc.get('tail', LONG))
@@ -915,7 +949,7 @@ def select(scheds: dict, cap: int, rng) -> list:
 def concretise(rng) -> dict:
     base = rng.choice([61000, 40000, 2234])
     return dict(names=Names(rng), ports=(base, base + rng.choice([1, 7])), T=rng.choice([3, 10, 25]),
-                variant=rng.choice(['hang', 'delay']), notice=rng.choice(['ack', 'track']),
+                variant=rng.choice(['hang', 'delay', 'gate']), notice=rng.choice(['ack', 'track']),
                 stall_on=rng.choice(['any', 'any', 'listening', 'peer']), stall_state=rng.choice(['closing', 'closed']),
                 stall_min=rng.choice([0.0, 0.0, 12.0]), stall_poke=rng.random() < 0.3, epi_slow=rng.random() < 0.3)
 
@@ -1093,7 +1127,14 @@ def run(chk: Check, args):
     if thorough:
         keys = select(scheds, 12000, chk.rng)       # feature cover first, seeded fill (budget: ~10 min)
         sweep, winfo = out['sweep']
-        chk.add_model('Session settings sweep (3456 vectors, one login each)', winfo['res'])
+        chk.add_model('Session settings sweep (full settings matrix, one login each)', winfo['res'])
+        # one schedule per settings vector (the longest: login, burst, quiescence, stop)
+        per_vec: dict = {}
+        for k in sorted(sweep, key=repr):
+            if k[0] not in per_vec or len(k[1]) > len(per_vec[k[0]][1]):
+                per_vec[k[0]] = k
+        sweep = {k: sweep[k] for k in per_vec.values()}
+        chk.cov['sweep_vectors'] = len(sweep)
         keys += [k for k in sorted(sweep, key=repr) if k not in scheds]
         for k, v in sweep.items():
             scheds.setdefault(k, v)
